@@ -22,6 +22,7 @@ func initInt() {
 	RegisterNativeClass("Std::Int", "value.IntClass")
 
 	IntIteratorClass = NewClass()
+	IntIteratorClass.IncludeMixin(IteratorBaseMixin)
 	IntClass.AddConstantString("Iterator", Ref(IntIteratorClass))
 	RegisterNativeClass("Std::Int::Iterator", "value.IntIteratorClass")
 
